@@ -223,4 +223,11 @@ class Ctx:
                 print("%s  rule=%s  instance=%s  %s" % (v["where"], v["rule"], v["instance"], v["why"]))
             print("VIOLATION property=%s replay=%s" % (self.prop_id, vpath))
             return 1
+        # no violation on this run: a replay file left by an earlier failing run would be stale
+        stale = os.path.join(EVIDENCE_DIR, self.prop_id + ".violation.json")
+        if os.path.exists(stale):
+            try:
+                os.remove(stale)
+            except OSError:
+                pass
         return 0
